@@ -165,6 +165,9 @@ func cmdC15(args []string) error {
 		pn := obsPrinc("", types.PrincipalName{})
 		cli := map[string]interface{}{"called": false, "panic": "", "err": false, "errmsg": "", "identity": ident,
 			"sessions": []map[string]interface{}{}, "cache": []map[string]interface{}{}}
+		cli2 := map[string]interface{}{"called": false, "panic": "", "err": false, "errmsg": "", "identity": ident,
+			"sessions": []map[string]interface{}{}, "cache": []map[string]interface{}{}}
+		credsAfter := []map[string]interface{}{}
 		panics := map[string]interface{}{"lookups": "", "entries": "", "identity": ""}
 		if parsed {
 			for _, cr := range c.Credentials {
@@ -203,7 +206,30 @@ func cmdC15(args []string) error {
 				cli["identity"] = obsIdentity(cl.Credentials)
 				cli["sessions"], cli["cache"] = obsClient(cl)
 			}
+			// the client is destroyed, the parsed cache is read again and a second client is built from it
+			catch(func() {
+				if cl != nil {
+					cl.Destroy()
+				}
+			})
+			for _, cr := range c.Credentials {
+				credsAfter = append(credsAfter, obsCred(cr))
+			}
+			var cl2 *client.Client
+			var cerr2 error
+			cli2["called"] = true
+			cli2["panic"] = catch(func() { cl2, cerr2 = client.NewFromCCache(c, config.New()) })
+			cli2["err"] = cerr2 != nil
+			if cerr2 != nil {
+				cli2["errmsg"] = cerr2.Error()
+			}
+			if cli2["panic"] == "" && cerr2 == nil && cl2 != nil {
+				cli2["identity"] = obsIdentity(cl2.Credentials)
+				cli2["sessions"], cli2["cache"] = obsClient(cl2)
+			}
 		}
+		line["credsAfter"] = credsAfter
+		line["client2"] = cli2
 		line["creds"] = creds
 		line["lookups"] = lookups
 		line["panics"] = panics
